@@ -1131,6 +1131,7 @@ func execC05M(ops []Op) []string {
 	case out := <-done:
 		return out
 	case <-hangAfter(20 * time.Second):
+		noteHang()
 		atomic.AddInt32(&c05Hangs, 1)
 		return []string{"X timeout " + ops[0].String() + " => the interpreter did not come back within 20s"}
 	}
